@@ -269,13 +269,23 @@ func runScenario(sc *Scenario, tier string, spec *Spec, part *Part) {
 		}
 		return d
 	}
-	defer func() {
-		if e := recover(); e != nil {
-			part.Errors = append(part.Errors, fmt.Sprintf("scenario %s: %v", sc.Name, e))
-		}
-	}()
 	t0 := time.Now()
-	ex.Explore(sc.Body)
+	func() {
+		// A panic of the explorer (NONDETERMINISM) is a machinery error of this scenario; the
+		// violations it had recorded up to then are still processed below (determinism guard
+		// included), so the error can never be the only trace of a violation that was found.
+		defer func() {
+			if e := recover(); e != nil {
+				ex.Complete = false
+				msg := fmt.Sprint(e)
+				if len(msg) > 600 {
+					msg = msg[:600] + "..."
+				}
+				part.Errors = append(part.Errors, fmt.Sprintf("scenario %s: %s", sc.Name, msg))
+			}
+		}()
+		ex.Explore(sc.Body)
+	}()
 	if os.Getenv("VERIF_TIMING") != "" {
 		fmt.Fprintf(os.Stderr, "TIMING %6.1fs execs=%d states=%d complete=%v %s\n", time.Since(t0).Seconds(), ex.Execs, ex.States(), ex.Complete, sc.Name)
 	}
